@@ -560,26 +560,29 @@ def replay(cand):
                 return no
             return {"reproduced": True, "key": "cholesky:shapes", "what": "CholeskySampler accepted inconsistent shapes"}
         _, npar, n = cfg
-        A = np.array([[1.0, 0.3, 0.2], [0.3, 2.0, -0.4], [0.2, -0.4, 1.5]])[:npar, :npar]
+        A0 = np.array([[1.0, 0.3, 0.2], [0.3, 2.0, -0.4], [0.2, -0.4, 1.5]])[:npar, :npar]
         mean = np.array([1.0, -2.0, 0.5])[:npar]
-        drawn = []
+        # covariances of every scale: the statement holds for all positive-definite matrices, whatever their units
+        for scale in (1.0, 1e-9, 1e-12, 1e6, 3e-8):
+            A = A0 * scale
+            drawn = []
 
-        def dist(k):
-            z = np.arange(1, k + 1, dtype=float) * 0.37 - 0.9
-            drawn.append(z)
-            return z.copy()
-        nn = n if n else 1
-        if what == "cholesky":
-            out = rnd.CholeskySampler(mean, A, dist=dist).sample(n)
-        else:
-            out = rnd.cholesky_sample(A, n, means=mean, dist=dist)
-        L = np.linalg.cholesky(A)
-        z = drawn[0].reshape(npar, nn)
-        want = (L @ z).T + mean
-        if n is None and what == "cholesky":
-            want = want[0]
-        if np.shape(out) != want.shape or not np.allclose(out, want, rtol=1e-12):
-            return {"reproduced": True, "key": "cholesky", "what": "%s(npar=%d, n=%r) -> %r, expected mean + L z = %r" % (what, npar, n, np.asarray(out).tolist(), want.tolist())}
+            def dist(k):
+                z = np.arange(1, k + 1, dtype=float) * 0.37 - 0.9
+                drawn.append(z)
+                return z.copy()
+            nn = n if n else 1
+            if what == "cholesky":
+                out = rnd.CholeskySampler(mean, A, dist=dist).sample(n)
+            else:
+                out = rnd.cholesky_sample(A, n, means=mean, dist=dist)
+            L = np.linalg.cholesky(A)
+            z = drawn[0].reshape(npar, nn)
+            want = (L @ z).T + mean
+            if n is None and what == "cholesky":
+                want = want[0]
+            if np.shape(out) != want.shape or not np.allclose(np.asarray(out) - mean, want - mean, rtol=1e-10, atol=0):
+                return {"reproduced": True, "key": "cholesky", "what": "%s(npar=%d, n=%r, covariance scale %g) -> %r, expected mean + L z = %r" % (what, npar, n, scale, np.asarray(out).tolist(), want.tolist())}
         return no
     if what == "random_indices":
         imax = int(mdl.get("imax", 3))
